@@ -221,6 +221,13 @@ func (ex *Exec) loopHead(fr *Frame, b *ssa.BasicBlock, ord int, pred *ssa.BasicB
 
 func (ex *Exec) havocSet(st *State, ws *WriteSet, pre map[*Cell]bool) {
 	vc := ex.vc
+	// earlier iterations may have allocated: the allocation frontier of an arbitrary iteration is some value
+	// not below the one at loop entry (so that `allocated(x)` in an invariant speaks about the current frontier)
+	if st.allocTop.S != "" {
+		nt := vc.fresh("alloc_loop", SInt)
+		st.assume(app(">=", nt.S, st.allocTop.S))
+		st.allocTop = nt
+	}
 	if ws.all {
 		ex.havocAll(st, true)
 	}
